@@ -659,6 +659,8 @@ package vuego
 //@   assert C01.eval.once: $arg1 == newNode at "call evalAttributes"
 //@   assert C04+C06.slot.filled: node.Data != "slot" at "call evalAttributes"
 //@   assert C01.eval.once.html: $arg1 == newNode at "call evalVHtml"
+//@   assert C01+C14.chain.member.vtext: $arg1 == newNode at "call evalVText"
+//@   assert C03+C14.chain.member.vshow: $arg1 == newNode at "call evalVShow"
 //@   requires C11.depth.element: depth <= maxEvalDepth
 //@   decreases maxEvalDepth + 10 - depth, 1
 //@   holds ctx.stack
